@@ -655,3 +655,54 @@ def meta_independent(ctx):
         ctx.require(got['script_type'] == 'p2wsh', q, 'with witness_type=%s the script type of the prefix is not taken over (%s)' % (wt_arg, got['script_type']), fn)
         exp_wt = wt_arg or 'segwit'
         ctx.require(got['witness_type'] == exp_wt, q, 'witness type is %s, expected %s' % (got['witness_type'], exp_wt), fn)
+
+
+@PROP.obligation('C12.detect-hex', canaries=[
+    mut.replace_expr('keys', 'get_key_format', "len(key) == 66 and key[-2:] in ['01'] and (not is_private is False)", "len(key) == 66 and key[-2:] in ['01'] and key[:2] not in ['02', '03'] and (not is_private is False)", 'no-op guard') if False else
+    mut.replace_expr('keys', 'get_key_format', "key[:2] in ['02', '03']", "key[:2] in ['02']", 'public keys with prefix 03 fall through to the private hex forms'),
+])
+def detect_hex(ctx):
+    """get_key_format on hexadecimal strings, evaluated on SHAPES (length, two-character prefix, two-character suffix, the middle symbolic):
+    66 characters starting 02 / 03 are a compressed PUBLIC key whatever the last byte is (1 in 256 public keys ends in 01, the suffix of
+    the private hex_compressed form); 66 characters ending 01 and not starting 02 / 03 are a private key; 130 characters starting 04 are an
+    uncompressed public key; 64 and 128 characters are private hex. No verdict may depend on the symbolic middle."""
+    q = 'keys:get_key_format'
+    fn = ctx.repo.func(q)
+    it = Interp(ctx.repo, 'keys', hooks=dict(LAYOUT_HOOKS))
+    exits = it.run_function(fn, {'key': S(('var', 'key'), 'str'), 'is_private': None})
+    rets = [e for e in exits if e.kind == 'return' and isinstance(e.value, dict)]
+    if not rets:
+        ctx.undecided('get_key_format: no dictionary result')
+    K = ('var', 'key')
+
+    def prep(t):
+        def f(x):
+            if isinstance(x, tuple) and x and x[0] == 'isinstance' and x[1] == K:
+                return 'TYPE_TEXT' in show(x[2]) or show(x[2]).endswith("'str')")
+            if x == ('not', K):
+                return False
+            return None
+        return rewrite(t, f)
+    fmt_t, priv_t = prep(term(rets[-1].value['format'])), prep(term(rets[-1].value['is_private']))
+    cases = [
+        ('66 chars 02..01', [b'02', ('mid', 62), b'01'], ('public', False)),
+        ('66 chars 03..01', [b'03', ('mid', 62), b'01'], ('public', False)),
+        ('66 chars 02..ab', [b'02', ('mid', 62), b'ab'], ('public', False)),
+        ('66 chars ab..01', [b'ab', ('mid', 62), b'01'], ('hex_compressed', True)),
+        ('64 chars', [b'ab', ('mid', 60), b'01'], ('hex', True)),
+        ('130 chars 04..', [b'04', ('mid', 126), b'01'], ('public_uncompressed', False)),
+        ('128 chars', [b'ab', ('mid', 124), b'cd'], ('hex', True)),
+    ]
+    for name, lay, exp in cases:
+        env = {K: seg.seg(*lay)}
+        try:
+            f = seg.seg_eval(fmt_t, env)
+            p_ = seg.seg_eval(priv_t, env)
+        except seg.SegUnknown as e:
+            ctx.undecided('get_key_format: verdict for %s not evaluable: %s' % (name, str(e)[:100]))
+        ctx.saw('%s -> %s' % (name, (f, p_)))
+        if isinstance(f, seg.Dep) or isinstance(p_, seg.Dep):
+            ctx.violate(q, 'the verdict for a hex string of shape %s depends on its middle characters' % name, fn)
+            continue
+        ctx.require((f, p_) == exp, q, 'a hex string of shape %s is classified %s, expected %s' % (name, (f, p_), exp), fn,
+                    'a compressed public key that ends in 01 is imported as a private key (its first 32 bytes become the secret)' if 'public' in exp[0] else 'private key hex is classified as public')
